@@ -24,6 +24,18 @@ CLAIMED = {
         design='§5 C17'),
 }
 
+CLAIMED['C20'] = dict(
+    category='model_checking',
+    text="The real MIR of FilesWithBackupEmitter::emit_formatted_file is executed symbolically with std::fs::{write,rename,copy,remove_file} as "
+         "effect-trace entries returning a symbolic io::Result; the file-system state after every sub-step (write = truncate, then fill; rename atomic) "
+         "is a z3 term, the crash point and the failing operation are symbolic variables, and the solver decides on every path: the original is "
+         "recoverable from F or F.bk at every instant, F is never partial, a complete run leaves F=formatted and F.bk=original, an unchanged file "
+         "causes no operation, and every io error propagates. One rewrite, all crash points, all single failures.",
+    note="Trusted: the stated file-system model (write = create/truncate then fill, rename atomic), Path::with_extension as a constructor giving "
+         "three distinct paths, MIR printer, mirsym, cvc5/z3. Counterexamples are replayed with the real `rustfmt --backup` under strace fault "
+         "injection (signal/error at the k-th rename) in a scratch directory. Outside: fsync/durability, other processes.",
+    design='§5 C20')
+
 NA = {
     'C01': "token-sequence equivalence over all programs requires symbolic execution of rustc_parse and ~30 kLoC of AST rewriters; no encodable kernel carries it",
     'C02': "fixed-point of the full formatting pipeline (parser + all rewriters on both sides); not encodable, and idempotence of kernels does not imply it",
